@@ -1,7 +1,7 @@
 (* C03/Property.v — property C03 (downloaded log and parameter tables equal the device tables).
    Theorems only; each is closed by `exact <lemma>` and followed by Print Assumptions.
    Model: C03/Model.v (Toc, TocFetcher, element parsers, TOC server, adversary), C03/ExtModel.v. *)
-From CF Require Import Common.Bytes C03.Model C03.ExtModel C03.Proofs C03.Fetch C03.Lookup C03.Live C03.Ext C03.Restart.
+From CF Require Import Common.Bytes C03.Model C03.ExtModel C03.Proofs C03.Fetch C03.Lookup C03.Live C03.Ext C03.Restart C03.Stale.
 Open Scope Z_scope.
 
 (* Element decoding is the inverse of the firmware's wire encoding: for every entry with NUL-free
@@ -157,3 +157,100 @@ Theorem C03_log_download_exact : forall cache ver items raw crc extra evs,
   end.
 Proof. exact log_download_exact. Qed.
 Print Assumptions C03_log_download_exact.
+
+(* ------------------------------------------------------------------------------------------------------------
+   Widened adversary (model C03/Stale.v; on_packet includes the command-byte check of fix F03a).
+   (a) STALE packets: at any step ANY packet may arrive on the TOC channel provided that, in the state in which
+   it arrives, it is not one of the two kinds that are indistinguishable on the wire (`stale_ok`): an INFO-command
+   packet while the INFO reply is awaited, an ITEM-command packet carrying exactly the pending index.  Everything
+   else — element replies of an earlier session before the INFO reply, INFO replies with another count/CRC during
+   the elements or after completion, element replies with any other index, packets of the other protocol
+   generation, empty or foreign packets — is covered.  Conclusion as C03_fetch_exact: never raises, finished at
+   most once, on completion the table is exactly the CURRENT device's and exactly it is stored under the CURRENT
+   CRC. *)
+Theorem C03_fetch_exact_stale : forall c cache ver items raw crc extra evs,
+  raw_items c items = Some raw -> Forall item_ok items -> 0 <= crc < 2 ^ 32 ->
+  Z.of_nat (List.length items) < (if 4 <=? ver then 65536 else 256) ->
+  (let '(s0, o0) := start ver [] in all_ok c cache (mkDev raw crc extra) s0 o0 evs) ->
+  let '(s, o) := fetch c cache ver (mkDev raw crc extra) evs in
+  fetch_result_ok c cache (4 <=? ver) items crc s o.
+Proof. exact fetch_exact_stale. Qed.
+Print Assumptions C03_fetch_exact_stale.
+
+(* the two protocol limitations, as refutation examples on a 2-entry device: a stale INFO reply (1 entry, CRC 1)
+   before the INFO reply makes the download complete with 1 of 2 entries stored under CRC 1; a stale element
+   reply carrying the pending index 0 puts an entry of another table in place of entry 0 *)
+Theorem C03_stale_info_indistinguishable :
+  let '(s, o) := fetch ParamCls (fun _ => None) 7 lim_dev
+                       [Raw 0 [3; 1; 0; 1; 0; 0; 0]; Deliver 0; Deliver 1] in
+  finished_count o = 1%nat /\ raised o = [] /\
+  f_toc s = spec_toc ParamCls [mkItem [103] [97] U8 false false false false] /\
+  f_toc s <> spec_toc ParamCls lim_items /\ map fst (inserts o) = [1].
+Proof. exact stale_info_indistinguishable. Qed.
+Print Assumptions C03_stale_info_indistinguishable.
+
+Theorem C03_stale_item_indistinguishable :
+  let '(s, o) := fetch ParamCls (fun _ => None) 7 lim_dev
+                       [Deliver 0; Raw 0 [2; 0; 0; 9; 111; 0; 120; 0]; Deliver 1; Deliver 2] in
+  finished_count o = 1%nat /\ raised o = [] /\
+  get_element [111] [120] (f_toc s) <> None /\ get_element [103] [97] (f_toc s) = None /\
+  map fst (inserts o) = [287454020].
+Proof. exact stale_item_indistinguishable. Qed.
+Print Assumptions C03_stale_item_indistinguishable.
+
+(* (b) resends as duplicate REQUESTS: every copy of a request that reaches the device is answered (WReach), the
+   answers are in flight and arrive in any order, at any later time (after the next element was requested, after
+   completion), or are lost (WDeliver / WDrop).  All such link histories are instances of the reply adversary. *)
+Theorem C03_fetch_exact_duplicate_requests : forall c cache ver items raw crc extra wevs,
+  raw_items c items = Some raw -> Forall item_ok items -> 0 <= crc < 2 ^ 32 ->
+  Z.of_nat (List.length items) < (if 4 <=? ver then 65536 else 256) ->
+  wadmissible wevs ->
+  let '(s, o) := fetch c cache ver (mkDev raw crc extra) (wire [] wevs) in
+  fetch_result_ok c cache (4 <=? ver) items crc s o.
+Proof. exact fetch_exact_wire. Qed.
+Print Assumptions C03_fetch_exact_duplicate_requests.
+
+(* (c) extended-type phase with stale replies of an earlier session: any extended-type reply for a parameter id
+   other than the one in flight may arrive at any step (besides everything xadmissible allows) *)
+Theorem C03_persistent_marker_stale : forall (t : toc) (d : xdev) (evs : list aev),
+  (forall e e', In e (values t) -> In e' (values t) -> e_ident e = e_ident e' -> e = e') ->
+  (forall e, In e (values t) ->
+     0 <= e_ident e < 65536 /\ (e_extended e = true -> exists b, assoc (e_ident e) d = Some b)) ->
+  (let '(s0, o0) := xstart t in xall_ok d s0 o0 evs) ->
+  let '(s, o) := xfetch t d evs in
+  raised o = [] /\ (finished_count o <= 1)%nat /\
+  (finished_count o = 1%nat ->
+     sends o = map ext_req (ext_ids t) /\
+     x_toc s = map_toc (fun e => if e_extended e && match assoc (e_ident e) d with Some 1 => true | _ => false end
+                                 then set_pers e else e) t).
+Proof. exact persistent_marker_stale. Qed.
+Print Assumptions C03_persistent_marker_stale.
+
+(* limitation: a stale extended-type reply for the very id in flight is taken as its answer *)
+Theorem C03_stale_ext_indistinguishable :
+  let '(s, o) := xfetch lim_ptoc [(0, 0)] [Raw 3 [2; 0; 0; 1]; Deliver 0] in
+  finished_count o = 1%nat /\
+  option_map e_persistent (get_element [112] [97] (x_toc s)) = Some true.
+Proof. exact stale_ext_indistinguishable. Qed.
+Print Assumptions C03_stale_ext_indistinguishable.
+
+(* the parameter table at the moment `connected` is signalled (completion of the extended-type phase that follows
+   the download): every parameter of the device is found under its name with index, type, access, extended flag
+   and the device's persistence *)
+Theorem C03_param_table_at_connected : forall items (d : xdev) xevs i it,
+  NoDup (map key items) -> Z.of_nat (List.length items) < 65536 ->
+  (forall j jt, nth_error items j = Some jt -> di_ext jt = true ->
+                assoc (Z.of_nat j) d = Some (if di_pers jt then 1 else 0)) ->
+  nth_error items i = Some it ->
+  (let '(s0, o0) := xstart (spec_toc ParamCls items) in xall_ok d s0 o0 xevs) ->
+  let '(s, o) := xfetch (spec_toc ParamCls items) d xevs in
+  finished_count o = 1%nat ->
+  get_element (di_group it) (di_name it) (x_toc s) =
+  Some (let e := spec_elem ParamCls (Z.of_nat i) it in if di_ext it && di_pers it then set_pers e else e).
+Proof. exact param_table_at_connected. Qed.
+Print Assumptions C03_param_table_at_connected.
+
+(* an extended-type fetch abandoned by a disconnect (fix F03b) is silent in every later session *)
+Theorem C03_abandoned_ext_fetch_is_silent : forall s ch dt, x_on_packet (x_disconnect s) ch dt = (x_disconnect s, []).
+Proof. exact abandoned_ext_fetch_silent. Qed.
+Print Assumptions C03_abandoned_ext_fetch_is_silent.
